@@ -616,7 +616,7 @@ func (c *ctx) randomTrees(count int) {
 			if ai%5 == 0 {
 				k = c.r.IntN(len(envs))
 			}
-			c.checkCase("random", trimClassShape(shape), classSummary(a), labels[k], p, envs[k], sigs, pre)
+			c.checkCase("random", shape, classSummary(a), labels[k], p, envs[k], sigs, pre)
 		}
 		b.Count("random_trees", 1)
 	}
@@ -648,8 +648,6 @@ func kindsPresent(n *node) string {
 	sort.Slice(ks, func(i, j int) bool { return ks[i] < ks[j] })
 	return string(ks)
 }
-
-func trimClassShape(s string) string { return s }
 
 // classSummary of a (possibly long) assignment: counts of each class + extra.
 func classSummary(a assignment) string {
